@@ -61,5 +61,5 @@ def run(tier, seed):
                      assumptions=['Appendix A of DESIGN.md transcribes the documented error conditions', 'Hypergeometric::new calls predicted to loop ~N > 2^24 times are skipped (counted)'])
     if len(ctors) < 40 or meta['hangs']:
         V.log('coverage floor not met', len(ctors), meta)
-        return 2
+        return 1 if rc == 1 else 2  # a violation outranks a missed coverage floor
     return rc
